@@ -139,6 +139,19 @@ struct SimCore
             {
                 f = static_cast<T>(2.0L * static_cast<long double>(x[0]) - 1.0L);   // what F_SIGN gives in one dimension
             }
+            if (c.poison_q != 0)
+            {
+                // a few evaluations are not finite (decided by the point, as everywhere)
+                long double const x0 = static_cast<long double>(x[0]);
+                std::uint64_t const hb = mix2(static_cast<std::uint64_t>(std::ldexp(x0, 63)), 0x5eedULL);
+                if ((hb & 0xffffffffULL) < c.poison_q)
+                {
+                    ++st.nz;
+                    ++c.poison_fired;
+                    r.f = std::numeric_limits<T>::quiet_NaN();
+                    return std::numeric_limits<T>::quiet_NaN();
+                }
+            }
             if (f != T())
             {
                 ++st.nz;
@@ -379,7 +392,11 @@ struct MultiMap
     void fill_densities(Ctx const& c, long double const* x, std::vector<std::size_t> const& enabled,
         std::vector<T>& dens, bool wpoison, int how) const
     {
-        for (std::size_t j = 0; j != dens.size(); ++j) dens[j] = T();
+        // (a map like the one of the shipped example writes only the entries of the enabled channels)
+        if (!cmap->sparse)
+        {
+            for (std::size_t j = 0; j != dens.size(); ++j) dens[j] = T();
+        }
 
         for (std::size_t j : enabled)
         {
@@ -466,7 +483,14 @@ struct MultiMap
                 c.sum_d = checksum(dens);
             }
 
-            return static_cast<T>(cmap->jac);
+            // the value returned from the coordinate request is documented as ignored
+            switch (cmap->coord_ret)
+            {
+            case 1: return T();
+            case 2: return T(1);
+            case 3: return std::numeric_limits<T>::quiet_NaN();
+            default: return static_cast<T>(cmap->jac);
+            }
         }
 
         // calculate_densities
@@ -615,7 +639,7 @@ struct SimCallback
             ++invocations;
             // stateless: decides by what the checkpoint holds; stateful: by its own invocation counter
             // (the integrators take the callback by value once and call that one object every time)
-            rec.ret = ctl->user_stateful ? (invocations + first_seen_base(c, rec) != c.user_stop)
+            rec.ret = ctl->user_stateful ? (invocations + c.base_results != c.user_stop)
                                          : (rec.nresults != c.user_stop);
         }
 
@@ -627,14 +651,6 @@ struct SimCallback
     }
 
     std::uint64_t invocations = 0;
-    std::uint64_t base = ~0ULL;
-
-    // results the checkpoint held before this run (seen at the first invocation)
-    std::uint64_t first_seen_base(Ctx&, CbRec const& rec)
-    {
-        if (base == ~0ULL) base = rec.nresults - 1;
-        return base;
-    }
 };
 
 template <typename Chk>
@@ -646,7 +662,6 @@ struct SimMpiCallback
     hep::mpi_callback<Base> builtin_base;
     RunCtl const* ctl = nullptr;
     std::uint64_t invocations = 0;
-    std::uint64_t base = ~0ULL;
 
     SimMpiCallback(RunCtl const& c)
         : builtin(static_cast<hep::callback_mode>(c.mode), c.filename,
@@ -682,8 +697,7 @@ struct SimMpiCallback
                 fs().files[ctl->filename] = rec.text;
             }
             ++invocations;
-            if (base == ~0ULL) base = rec.nresults - 1;
-            rec.ret = ctl->user_stateful ? (invocations + base != c.user_stop) : (rec.nresults != c.user_stop);
+            rec.ret = ctl->user_stateful ? (invocations + c.base_results != c.user_stop) : (rec.nresults != c.user_stop);
         }
 
         if (!c.log_text) rec.text.clear();
@@ -809,8 +823,12 @@ public:
             for (u64 b = 1; b != p.bins; ++b)
             {
                 T x = static_cast<T>(g[d * (p.bins + 1) + b]);
-                // keep the grid strictly increasing after rounding to T
-                if (!(x > prev)) x = std::nextafter(prev, T(2));
+                // an empty bin of the script (two equal boundaries) stays empty; everything else stays
+                // strictly increasing after rounding to T
+                bool const empty = g[d * (p.bins + 1) + b] == g[d * (p.bins + 1) + b - 1];
+                // (some of them get the smallest width there is instead)
+                bool const sliver = empty && (mix2(p.gseed, 77000 + 1000 * d + b) % 2) == 0;
+                if (!(x > prev)) x = (empty && !sliver) ? prev : std::nextafter(prev, T(2));
                 if (x >= T(1)) x = std::nextafter(T(1), T(0));
                 if (!(x > prev)) x = prev;
                 pdf.set_bin_left(d, b, x);
@@ -868,6 +886,29 @@ public:
         }
 
         user_state_ = (p.integ == VEGAS && p.grid == 1) || (p.integ == MULTI && p.wts == 1);
+    }
+
+    bool transplant(Plan const& q) override
+    {
+        if (integ_ == VEGAS && vc_ && !vc_->results().empty())
+        {
+            E const gen(vc_->generator());
+            VChk n(hep::make_vegas_chkpt<T, E>(vc_->results().front().pdf(), static_cast<T>(q.alpha), gen));
+            for (auto const& r : vc_->results()) n.add(r, gen);
+            vc_.reset(new VChk(std::move(n)));
+            return true;
+        }
+        if (integ_ == MULTI && mc_ && !mc_->results().empty())
+        {
+            E const gen(mc_->generator());
+            MChk n(hep::make_multi_channel_chkpt<T, E>(mc_->results().front().channel_weights(),
+                static_cast<T>(q.minw), static_cast<T>(q.beta), gen));
+            for (auto const& r : mc_->results()) n.add(r, gen);
+            vc_.reset();
+            mc_.reset(new MChk(std::move(n)));
+            return true;
+        }
+        return false;
     }
 
     bool load(Plan const& p, std::string const& text, LoadInfo& info) override
@@ -1319,6 +1360,8 @@ public:
         c.poison_mask = ctl.poison_mask;
         c.zero_instead = ctl.zero_instead;
         c.user_stop = ctl.user_stop;
+        c.base_results = base;
+        c.cmap_sparse = (p.integ == MULTI) && (mix2(p.mseed, 998) % 3 == 0);
         c.nested = ctl.nested;
         c.in_nested = false;
         c.nested_done = 0;
